@@ -680,6 +680,108 @@ def main():
             except Exception as ex:  # noqa: BLE001
                 res.fail("reactions of a beam frame with a connection raise", f"{type(ex).__name__}: {str(ex)[:160]}", ident)
 
+    # ---------------- constant fields on meshes given as node / connectivity tables, some cells filled with degenerate elements ----------------
+    # An all-quadrangle (all-hexahedron) mesh as other meshers write it: a cell cut in two triangles (wedges) is stored as two QUAD4 (HEXA8)
+    # whose last-but-one corner is repeated. "For all meshes": a field that is the same constant in every element is that constant at every
+    # node, and a field that is the same constant at every node is that constant in every element, whatever the connectivity table looks like.
+    import random as _random
+    from EasyFEA import Mesh as _MeshD
+    from EasyFEA.FEM import GroupElemFactory as _GEF
+    rd = _random.Random(1600 + args.seed)       # own stream: the draws of the other sections do not move
+
+    def table_mesh(dim, nx, ny, nz, split, rot):
+        xs, ys, zs = np.linspace(0, 3.0, nx + 1), np.linspace(0, 2.0, ny + 1), (np.linspace(0, 1.0, nz + 1) if dim == 3 else np.array([0.0]))
+        coord = np.array([[x, y, z] for z in zs for y in ys for x in xs], dtype=float)
+        nid = lambda i, j, k=0: (k * (ny + 1) + j) * (nx + 1) + i      # noqa: E731
+        for j in range(1, ny):                                          # interior nodes off the regular grid (same shift through the thickness)
+            for i in range(1, nx):
+                sx, sy = rd.randint(-8, 8) / 64, rd.randint(-8, 8) / 64
+                for k in range(len(zs)):
+                    coord[nid(i, j, k), :2] += [sx, sy]
+        connect = []
+        for k in range(nz if dim == 3 else 1):
+            for j in range(ny):
+                for i in range(nx):
+                    a, b, c, d = nid(i, j, k), nid(i + 1, j, k), nid(i + 1, j + 1, k), nid(i, j + 1, k)
+                    cells = [[a, b, c, c], [c, d, a, a]] if (i, j, k)[:dim] in split else [[a, b, c, d]]
+                    for cell in cells:
+                        cell = cell[rot:] + cell[:rot]                  # which corner is the repeated one
+                        connect.append(cell if dim == 2 else cell + [n_ + (ny + 1) * (nx + 1) for n_ in cell])
+        et_ = ElemType.QUAD4 if dim == 2 else ElemType.HEXA8
+        return _MeshD({et_: _GEF.Create(et_, np.array(connect, dtype=int), coord)})
+
+    tables = [(2, 3, 3, 0), (2, 4, 3, 0), (2, 5, 4, 0), (3, 3, 2, 2)] if args.tier == "quick" else [(2, 3, 3, 0), (2, 4, 3, 0), (2, 5, 4, 0), (2, 7, 5, 0), (3, 3, 2, 2), (3, 4, 3, 2)]
+    for it_, (dim, nx, ny, nz) in enumerate(tables):
+        allc = [(i, j) if dim == 2 else (i, j, k) for k in range(max(nz, 1)) for j in range(ny) for i in range(nx)]
+        split = set(rd.sample(allc, 1 + (it_ + args.seed) % 3))
+        rot = (it_ + args.seed) % 4
+        ident = dict(sim="Elastic", mesh=f"{'QUAD4' if dim == 2 else 'HEXA8'} table {nx}x{ny}" + (f"x{nz}" if dim == 3 else "") + " on [0,3]x[0,2](x[0,1]), interior nodes shifted",
+                     degenerate_cells=sorted(split), repeated_corner=f"[a,b,c,c] / [c,d,a,a] rotated by {rot}", stream=f"random.Random({1600 + args.seed})")
+        res.count(f"table-mesh:{dim}D")
+        try:
+            mesh = table_mesh(dim, nx, ny, nz, split, rot)
+            Nn, Ne = int(mesh.Nn), int(mesh.Ne)
+            ident.update(Nn=Nn, Ne=Ne)
+            # (1) Mesh.Get_Node_Values on element tables that are constant per column: one column, several columns, integer-typed
+            cst = np.array([rd.randint(1, 16) / 8, -rd.randint(1, 16) / 4, float(rd.randint(2, 9))])
+            for label, tab, want in (("1 column", np.full(Ne, cst[0]), np.full(Nn, cst[0])), ("3 columns", np.tile(cst, (Ne, 1)), np.tile(cst, (Nn, 1))),
+                                     ("integer-typed column", np.full((Ne, 1), int(cst[2]), dtype=int), np.full((Nn, 1), cst[2]))):
+                res.case(("table-mesh", it_, "Get_Node_Values", label))
+                got = np.asarray(mesh.Get_Node_Values(tab), dtype=float)
+                dev = np.abs(got - want).max() if got.shape == want.shape else np.inf
+                if not (dev <= 1e-12 * np.abs(cst).max()):
+                    res.fail("Get_Node_Values constant element table, degenerate elements", f"Mesh.Get_Node_Values of an element table ({label}) holding the same value(s) {np.unique(tab).tolist()} in every element: "
+                             f"nodal values differ from them by {dev if np.isfinite(dev) else 'shape ' + str(got.shape)}", dict(ident, table=label))
+                    break
+            # (2) uniform strain state: every advertised result that is uniform over the elements is that constant at every node
+            mat = Models.Elastic.Isotropic(2, E=8.0, v=0.25, planeStress=True, thickness=0.5) if dim == 2 else Models.Elastic.Isotropic(3, E=8.0, v=0.25)
+            simu = Simulations.Elastic(mesh, mat)
+            G = np.array([[rd.randint(-8, 8) / 16 for _ in range(dim)] for _ in range(dim)]) + 0.75 * np.eye(dim)
+            tr = np.array([rd.randint(1, 8) / 4 for _ in range(dim)])
+            ulin = (mesh.coord[:, :dim] @ G.T + tr).ravel()
+            simu._Set_solutions(simu.problemType, ulin.copy(), 0 * ulin, 0 * ulin)
+            ident.update(state="u = G X + t", G=G.tolist(), t=tr.tolist())
+            checked = []
+            for name in simu.Results_Available():
+                try:
+                    ve = np.asarray(simu.Result(name, nodeValues=False), dtype=float)
+                except Exception as ex:  # noqa: BLE001
+                    res.fail(f"sim=Elastic result={name} raises on a mesh with degenerate elements", f"Result('{name}', nodeValues=False) raised {type(ex).__name__}: {str(ex)[:120]}", ident)
+                    continue
+                if ve.ndim == 0 or ve.size % Ne != 0 or ve.shape[0] != Ne:
+                    continue                                    # scalars (energies) and results without an element form
+                ve = ve.reshape(Ne, -1)
+                if (Ne * ve.shape[1]) % Nn == 0:
+                    continue                                    # layout undecidable from the size alone: recorded finding (Results_Reshape_values), not this scenario
+                scale = max(np.abs(ve).max(), 1e-3)
+                if not (np.ptp(ve, axis=0).max() <= 1e-10 * scale):
+                    continue                                    # not uniform over the elements (displacement ...): nothing promised here
+                res.case(("table-mesh", it_, name))
+                vn = np.asarray(simu.Result(name, nodeValues=True), dtype=float)
+                devn = np.abs(vn.reshape(Nn, -1) - ve[0]).max() if vn.size == Nn * ve.shape[1] else np.inf
+                checked.append(name)
+                if not (devn <= 1e-9 * scale):
+                    res.fail("sim=Elastic node-element conversion, degenerate elements", f"uniform strain state: Result('{name}') is {np.round(ve[0], 9).tolist()} in every element but its nodal form "
+                             + (f"differs from it by {devn:.3e} (nodal values in [{np.nanmin(vn):.6g}, {np.nanmax(vn):.6g}])" if np.isfinite(devn) else f"has shape {vn.shape} (Nn = {Nn})"), dict(ident, result=name))
+                    checked = None
+                    break
+            res.case(("table-mesh", it_, "names covered"))
+            if checked is not None and not ({"Exx", "Sxx", "Svm"} <= set(checked)) and {"Exx", "Sxx", "Svm"} <= set(simu.Results_Available()):
+                res.fail("sim=Elastic uniform strain not uniform, degenerate elements", f"u = G X + t on a mesh with degenerate elements: of Exx / Sxx / Svm only {sorted(set(checked) & {'Exx', 'Sxx', 'Svm'})} "
+                         "come out uniform over the elements (the strain of a linear field is G in every element, degenerate or not)", ident)
+            # (3) the other direction: a rigid translation is the same constant at every node, hence in every element
+            ucst = np.tile(tr, Nn)
+            simu._Set_solutions(simu.problemType, ucst.copy(), 0 * ucst, 0 * ucst)
+            for k, axn in enumerate("xyz"[:dim]):
+                res.case(("table-mesh", it_, "u" + axn + " element form"))
+                ue_ = np.asarray(simu.Result("u" + axn, nodeValues=False), dtype=float).ravel()
+                if ue_.shape != (Ne,) or not (np.abs(ue_ - tr[k]).max() <= 1e-12 * np.abs(tr).max()):
+                    res.fail("sim=Elastic element form of a constant nodal field, degenerate elements", f"rigid translation t = {tr.tolist()}: the element form of Result('u{axn}') is "
+                             + (f"in [{np.nanmin(ue_):.6g}, {np.nanmax(ue_):.6g}] instead of {tr[k]}" if ue_.shape == (Ne,) else f"of shape {ue_.shape} (Ne = {Ne})"), dict(ident, state="u = t", result="u" + axn))
+                    break
+        except Exception as ex:  # noqa: BLE001
+            res.fail("constant fields on a mesh with degenerate elements raise", f"{type(ex).__name__}: {str(ex)[:160]}", ident)
+
     # ---------------- correspondence ----------------
     lines = ["kinematic Elastic", "kinematic WeakForms", "components 2", "components 3"]
     pts = [[dy(rng, -2, 2) for _ in range(6)] for _ in range(4)]
